@@ -228,6 +228,25 @@ def build_class(spec: dict, md: bool) -> type:
     return cls
 
 
+def build_class_for_id(spec: dict, type_id: int) -> type:
+    """A message class with a GIVEN type id, built once per (spec, id) and NOT registered: registry histories register
+    several classes under one id themselves, through the public pyrtma.message_def decorator."""
+    key = _canon([spec, "rid", int(type_id)])
+    cls = _BUILT.get(key)
+    if cls is not None:
+        return cls
+    name = "R" + hashlib.sha1(key.encode()).hexdigest()[:10]
+    ns: Dict[str, Any] = {"type_name": name, "type_hash": (zlib.crc32(key.encode()) & 0xFFFFFFFF) or 1, "type_source": "verif",
+                          "type_def": key, "type_id": int(type_id)}
+    for f in spec["f"]:
+        ns[f[0]] = _validator_for(f)
+    cls = MessageMeta("MDF_" + name, (MessageData,), ns)
+    cls.type_size = ctypes.sizeof(cls)
+    _BUILT[key] = cls
+    _REF_OF[cls] = {"spec": spec, "rid": int(type_id)}
+    return cls
+
+
 def resolve(ref: dict) -> type:
     if "core" in ref:
         cls = getattr(core_defs, ref["core"], None)
@@ -241,6 +260,8 @@ def resolve(ref: dict) -> type:
             if c.__name__ == ref["extra"]:
                 return c
         raise HarnessError(f"no extra class {ref['extra']}")
+    if "spec" in ref and "rid" in ref:
+        return build_class_for_id(ref["spec"], ref["rid"])
     if "spec" in ref:
         return build_class(ref["spec"], ref.get("md", False))
     raise HarnessError(f"bad class ref {ref!r}")
